@@ -24,6 +24,9 @@ func rangeSections(s Site) []string {
 			if i := strings.LastIndex(t, "."); i >= 0 {
 				t = t[i+1:]
 			}
+			if j := strings.IndexAny(t, ")#[ "); j >= 0 {
+				t = t[:j]
+			}
 			out[t] = true
 			return
 		case *ssa.Alloc:
@@ -138,7 +141,7 @@ func init() {
 		p := c.P
 		c.Explain = "Structural plumbing of the history encodings, decided on SSA + call graph: (sentinel) every caller of a function that may return the 'no log entry — consult the head/zero' sentinels (deprecatedstate.ErrCheckHeadState, state.ErrNoHistoryValue) classifies it; " +
 			"(history-pairing) every history bucket × state-diff section that Update logs is un-logged by Revert; (key-shape) history writers and readers build keys from the same bucket, the same operand order and an 8-byte big-endian block suffix; " +
-			"(gates) historical views pass the retention gate before a reader is built and consult the deployment height before answering. Not decided: the off-by-one semantics of valueAt, i.e. that the value returned is the value as of block n."
+			"(every-entry) each history log/un-log call runs for every entry of the diff section it ranges over (only iteration, error checks and flag parameters may dominate it); (gates) historical views pass the retention gate before a reader is built and consult the deployment height before answering. Not decided: the off-by-one semantics of valueAt, i.e. that the value returned is the value as of block n."
 		ci := p.caps()
 		r := p.newResolver()
 		ai := p.attrIndex(r, ci)
@@ -146,6 +149,28 @@ func init() {
 		c03Pairing(c, ci, r, ai)
 		c03KeyShape(c)
 		c03Gates(c)
+		// every-entry rule
+		nu := 0
+		for _, sp := range []struct {
+			f     fref
+			write bool
+		}{
+			{fref{"core/state", "State", "writeHistory"}, true},
+			{fref{"core/state", "State", "deleteHistory"}, false},
+			{fref{"core/deprecatedstate", "State", "performStateDeletions"}, false},
+			{fref{"core/deprecatedstate", "State", "updateContracts"}, true},
+			{fref{"core/deprecatedstate", "State", "updateStorageBuffered"}, true},
+			{fref{"pruner", "", "pruneStateHistoryFromUpdate"}, false},
+		} {
+			fn := p.Func(sp.f.pkg, sp.f.recv, sp.f.name)
+			if fn == nil {
+				c.und("every-entry", sp.f.recv+"."+sp.f.name, "", "anchor not found")
+				continue
+			}
+			nu += unconditionalLog(c, "every-entry", fn, ai, sp.write)
+		}
+		c.floor("every-entry", 15)
+		_ = nu
 	})
 	register("C04", func(c *Ctx) {
 		p := c.P
@@ -437,8 +462,8 @@ func c03KeyShape(c *Ctx) {
 // retTerm: canonical term of the single returned value of a small function.
 func retTerm(f *ssa.Function) string {
 	var ts []string
-	for _, b := range f.Blocks {
-		if ret, ok := b.Instrs[len(b.Instrs)-1].(*ssa.Return); ok && len(ret.Results) > 0 {
+	for _, ret := range returnsOf(f) {
+		if len(ret.Results) > 0 {
 			ts = append(ts, termP(ret.Results[0]))
 		}
 	}
